@@ -2054,6 +2054,9 @@ func (s *BgpServer) handleFSMMessage(peer *peer, e *fsmMsg) {
 		case bgp.BGP_MSG_UPDATE:
 			pathList, eor, isLimit := peer.handleUpdate(e)
 			if isLimit {
+				if len(pathList) > 0 {
+					s.propagateUpdate(peer, pathList)
+				}
 				_ = s.setAdminState(peer.ID(), "", adminStatePfxCt)
 				return
 			}
